@@ -509,7 +509,7 @@ theorem loadInlineMatrix_valid {m : IMatrix K} (h : ValidIMatrix m) :
     ∃ c0, loadInlineMatrix m = some c0 ∧ WFM c0 ∧ HiddenClean c0 ∧
       c0.major = m.size.toNat ∧ c0.minor = m.size.toNat ∧
       (∀ i j, denRows c0.rows i j = denIM m i j) ∧
-      (∀ i, ∀ x ∈ c0.rows.getD i [], x.val ≠ 0) := by
+      (∀ i, ∀ x ∈ c0.rows.getD i [], x.val ≠ 0) ∧ c0.hidden = [] := by
   classical
   refine ⟨CSM.newCSR m.size.toNat m.size.toNat (cooOfI m) false, ?_, ?_⟩
   · rw [loadInlineMatrix_eq, if_pos ⟨by have := h.1; omega, h.2.1⟩]
@@ -522,7 +522,7 @@ theorem loadInlineMatrix_valid {m : IMatrix K} (h : ValidIMatrix m) :
     omega
   obtain ⟨w1, w2, w3, w4, _⟩ := C10.newCSR_wf m.size.toNat m.size.toNat (cooOfI m) false hd
     (fun e he _ => (hrange e he).2)
-  refine ⟨w1, w2, w3, w4, ?_, fun i => C10.newCSR_no_zero _ _ _ i⟩
+  refine ⟨w1, w2, w3, w4, ?_, fun i => C10.newCSR_no_zero _ _ _ i, rfl⟩
   obtain ⟨c1, c2⟩ := C10.newCSR_cells m.size.toNat m.size.toNat (cooOfI m) false hd
     (fun e he _ => (hrange e he).1)
   intro i j
@@ -1200,13 +1200,30 @@ theorem mem_set {s : Store K} {id : String} {m : CSM K} {p : String × CSM K}
 theorem mem_erase {s : Store K} {id : String} {p : String × CSM K}
     (hp : p ∈ Store.erase s id) : p ∈ s := (List.mem_filter.mp hp).1
 
-/-- invariant of a stored matrix: well-formed, square, clean hidden part, no stored zero -/
+/-- merging into a matrix with nothing hidden leaves nothing hidden (the row table only grows) -/
+theorem merge_hidden_nil {A : CSM K} (hA : A.rows.length = A.major) (hh : A.hidden = [])
+    (B : CSM K) : (A.merge B).1.hidden = [] := by
+  rw [Mx.merge_fst]
+  simp only [Mx.setMinorDim_hidden]
+  unfold CSM.setMajorDim
+  simp only
+  split
+  · rfl
+  · rename_i hcap
+    rw [hh] at hcap ⊢
+    simp only [List.length_nil, Nat.add_zero, List.append_nil] at hcap ⊢
+    have : A.rows.length ≤ max A.major B.major := by rw [hA]; exact Nat.le_max_left _ _
+    rw [List.drop_eq_nil_of_le this]
+    rfl
+
+/-- invariant of a stored matrix: well-formed, square, nothing hidden, no stored zero, size ≥ 1 -/
 structure MatInv (M : CSM K) : Prop where
   wfm : WFM M
   square : M.major = M.minor
   clean : HiddenClean M
   noZero : NoZero M
   pos : 1 ≤ M.major
+  hiddenNil : M.hidden = []
 
 /-- invariant of the store -/
 def StoreInv (s : Store K) : Prop := ∀ p ∈ s, MatInv p.2
@@ -1225,7 +1242,8 @@ theorem StoreInv.erase {s : Store K} (h : StoreInv s) (id : String) :
     StoreInv (Store.erase s id) := fun p hp => h p (mem_erase hp)
 
 theorem MatInv.merge {A B : CSM K} (hA : MatInv A) (hB : MatInv B) : MatInv (A.merge B).1 := by
-  refine ⟨Mx.merge_wfm hA.wfm hA.clean hB.wfm, ?_, Mx.merge_hiddenClean hA.clean B, ?_, ?_⟩
+  refine ⟨Mx.merge_wfm hA.wfm hA.clean hB.wfm, ?_, Mx.merge_hiddenClean hA.clean B, ?_, ?_,
+    merge_hidden_nil hA.wfm.1 hA.hiddenNil B⟩
   · rw [Mx.merge_major, Mx.merge_minor, hA.square, hB.square]
   · intro i e he
     rw [Mx.merge_getD hA.wfm.1 hA.clean hB.wfm.1] at he
@@ -1245,11 +1263,11 @@ theorem MatInv.load {m : IMatrix K} {c : CSM K} (h : loadInlineMatrix m = some c
     split at h
     · rename_i hc; exact ⟨by omega, hc.2, hd⟩
     · cases h
-  obtain ⟨c0, l1, l2, l3, l4, l5, l6, l7⟩ := loadInlineMatrix_valid hv
+  obtain ⟨c0, l1, l2, l3, l4, l5, l6, l7, l8⟩ := loadInlineMatrix_valid hv
   rw [h] at l1
   injection l1 with l1
   subst l1
-  exact ⟨⟨l2, l4.trans l5.symm, l3, l7, by rw [l4]; have := hv.1; omega⟩, l4, l6⟩
+  exact ⟨⟨l2, l4.trans l5.symm, l3, l7, by rw [l4]; have := hv.1; omega, l8⟩, l4, l6⟩
 
 /-- with no stored zero, a cell is stored exactly when its dense value is non-zero -/
 theorem stored_iff_ne_zero {M : CSM K} (hw : WFM M) (hnz : NoZero M) (i j : Nat) :
@@ -1335,5 +1353,48 @@ theorem loopOf_not_nonFinite (fuel : Nat) (c : CSM K) (p : Vec K) (a e : K) (o :
     unfold nonFiniteAt at h4
     rw [nonFinite_field] at h4
     cases h4
+
+/-! ### requests naming a stored matrix reduce to inline requests -/
+
+/-- documented validity of everything in a request except the local trust reference -/
+structure ValidRest (r : ComputeReq K) : Prop where
+  preTrust : ValidVRef r.preTrust
+  initialTrust : ValidVRef r.initialTrust
+  alpha : ∀ a, r.alpha = some a → 0 ≤ a ∧ a ≤ 1
+  epsilon : ∀ e, r.epsilon = some e → 0 < e ∧ e ≤ 1
+  flatTail : optOK r.flatTail 0
+  numLeaders : optOK r.numLeaders 0
+  maxIterations : optOK r.maxIterations 0
+  minIterations : optOK r.minIterations 1
+  checkFreq : optOK r.checkFreq 1
+
+theorem ValidReq.rest {r : ComputeReq K} (h : ValidReq r) : ValidRest r :=
+  ⟨h.preTrust, h.initialTrust, h.alpha, h.epsilon, h.flatTail, h.numLeaders, h.maxIterations,
+    h.minIterations, h.checkFreq⟩
+
+theorem ValidRest.withInline {r : ComputeReq K} (h : ValidRest r) {m : IMatrix K}
+    (hm : ValidIMatrix m) : ValidReq { r with localTrust := .inline m } :=
+  ⟨⟨m, rfl, hm⟩, h.preTrust, h.initialTrust, h.alpha, h.epsilon, h.flatTail, h.numLeaders,
+    h.maxIterations, h.minIterations, h.checkFreq⟩
+
+/-- the GET body of a stored matrix denotes the stored content -/
+theorem denIM_renderI {M : CSM K} (hM : MatInv M) (i j : Nat) :
+    denIM (renderI M) i j = denRows M.rows i j := by
+  obtain ⟨c0, l1, _, _, _, _, l6, _⟩ :=
+    loadInlineMatrix_valid (valid_renderI hM.wfm hM.square hM.pos)
+  rw [load_renderI hM.wfm hM.square hM.noZero hM.pos] at l1
+  injection l1 with l1
+  subst l1
+  exact (l6 i j).symm
+
+/-- a stored matrix is what loading its GET body gives -/
+theorem load_renderI_eq {M : CSM K} (hM : MatInv M) : loadInlineMatrix (renderI M) = some M := by
+  rw [load_renderI hM.wfm hM.square hM.noZero hM.pos]
+  congr 1
+  have h1 := hM.square
+  have h2 := hM.hiddenNil
+  cases M
+  simp only at h1 h2
+  subst h1; subst h2; rfl
 
 end EtVerif.OapiL
